@@ -17,7 +17,10 @@ after that step).
 The property itself is searched on the same cases: the real run on the mirrored problem (images and masks
 exchanged, interval [-max, -min]) is snapshot the same way; after every step the right data of the run must be
 bit-for-bit the left data of the mirrored run and conversely (ctx.violation with the pipeline cut at the first
-step that differs); without a validation step the right cost volume / dataset must stay empty."""
+step that differs); without a validation step the right cost volume / dataset must stay empty; a run that raises
+while the same pipeline without its validation steps runs, or whose mirrored run raises, is a violation too.
+A few cases per run also go through pandora.main (rasters written to a mkdtemp directory, removed afterwards): the
+products main hands to save_results against the model and against the mirrored real run."""
 import hashlib
 import json
 import os
